@@ -3,7 +3,7 @@
    Statements: every sequence of length 1..maxlen over RawSql!Alphabet; thorough additionally every
    statement `$` w with w of length exprfirst over the alphabet (an expression first, long enough for
    `$(a%a)` and `$('%')`).  The harness enumerates the same products from (alphabet, maxlen, exprfirst)
-   and checks the count.  Core: the statements whose ordered pairs are adapted one after the other
+   and checks the count; Extra is a handful of longer statements.  Core: the statements whose ordered pairs are adapted one after the other
    (history dependence through the process-wide cache): every sequence of length <= 4 over a small alphabet
    that contains `$`, `%` and a name.  IN = [tier |-> "quick" | "thorough"]. *)
 EXTENDS RawSql, Json, IOUtils
@@ -19,6 +19,10 @@ RECURSIVE SumPow(_, _)
 SumPow(b, n) == IF n = 0 THEN 0 ELSE Pow(b, n) + SumPow(b, n - 1)
 Count == SumPow(Len(Alphabet), MaxLen) + (IF ExprFirst = 0 THEN 0 ELSE Pow(Len(Alphabet), ExprFirst))
 
+(* a few longer statements with a % inside the expression (both tiers) *)
+Extra == { <<"$", "(", "a", "%", "a", ")">>, <<"$", "(", "'", "%", "'", ")">>, <<"$", "a", "(", "'", "%", "'", ")", ";", "%">>,
+           <<"%", "$", "a", "[", "a", "%", "a", "]">> }
+
 CoreAlphabet == IF Quick THEN {"$", "%", "a"} ELSE {"$", "%", "a", ";", "("}
 CoreLen == IF Quick THEN 4 ELSE 4
 Core == UpTo(CoreAlphabet, CoreLen)
@@ -29,5 +33,5 @@ ASSUME AdaptIsFaithful4 ==
         LET a == Adapt(s, Styles[k]) IN a.ok /\ ~Mergeable(s, Styles[k]) => Faithful(s, Styles[k], a.text, a.hasargs)
 
 ASSUME JsonSerialize(IOEnv.OUT, [alphabet |-> Alphabet, styles |-> Styles, maxlen |-> MaxLen, exprfirst |-> ExprFirst,
-                                 count |-> Count, core |-> Core])
+                                 count |-> Count, core |-> Core, extra |-> Extra])
 =============================================================================
